@@ -10,12 +10,13 @@ one *operation* to the next inside a run is of course kept - that is what the ru
 import copy
 import functools
 import sys
+import types
 
 import numpy as np
 
 MODULES = ('fixed_format_file', 'geometry', 'mulgrids', 't2grids', 't2incons', 't2data',
            't2listing', 't2thermo', 'IAPWS97')
-_MUTABLE = (dict, list, set, bytearray)
+_MUTABLE = (dict, list, set, bytearray, np.ndarray)
 
 
 def _same(a, b):
@@ -44,6 +45,21 @@ def _same(a, b):
         return False
 
 
+def _restore(obj, clean):
+    if _same(obj, clean):
+        return 0
+    fresh = copy.deepcopy(clean)
+    if isinstance(obj, (dict, set)):
+        obj.clear()
+        obj.update(fresh)
+    elif isinstance(obj, np.ndarray):
+        if obj.shape == fresh.shape:
+            obj[...] = fresh
+    else:
+        obj[:] = fresh
+    return 1
+
+
 class GlobalState(object):
     def __init__(self):
         self.pristine = None
@@ -60,7 +76,19 @@ class GlobalState(object):
                     yield ('class', name, k), v, vars(v)
 
     @staticmethod
-    def _snap(ns):
+    def _functions(ns):
+        for k, v in ns.items():
+            if isinstance(v, (staticmethod, classmethod)):
+                v = v.__func__
+            if isinstance(v, property):
+                for f in (v.fget, v.fset, v.fdel):
+                    if isinstance(f, types.FunctionType):
+                        yield f
+            elif isinstance(v, types.FunctionType):
+                yield v
+
+    @classmethod
+    def _snap(cls, ns):
         names = set(ns.keys())
         muts = {}
         for k, v in ns.items():
@@ -69,7 +97,17 @@ class GlobalState(object):
                     muts[k] = (v, copy.deepcopy(v))
                 except Exception:
                     pass
-        return names, muts
+        # mutable default argument values are process-global state too
+        defaults = []
+        for f in cls._functions(ns):
+            vals = list(f.__defaults__ or ()) + list((f.__kwdefaults__ or {}).values())
+            for v in vals:
+                if isinstance(v, _MUTABLE):
+                    try:
+                        defaults.append((v, copy.deepcopy(v)))
+                    except Exception:
+                        pass
+        return names, muts, defaults
 
     def reset(self):
         """Restore; returns the number of things that had changed (a probe, not an oracle)."""
@@ -80,7 +118,7 @@ class GlobalState(object):
             if key not in self.pristine:           # first sight (module imported since)
                 self.pristine[key] = self._snap(ns)
                 continue
-            names, muts = self.pristine[key]
+            names, muts, defaults = self.pristine[key]
             for k in [k for k in list(ns.keys()) if k not in names and not k.startswith('__')]:
                 if isinstance(ns[k], _MUTABLE + (type(None), int, float, str, tuple)):
                     try:
@@ -93,17 +131,9 @@ class GlobalState(object):
                 if cur is not obj:
                     setattr(holder, k, obj)
                     changed += 1
-                if not _same(obj, clean):
-                    fresh = copy.deepcopy(clean)
-                    if isinstance(obj, dict):
-                        obj.clear(); obj.update(fresh)
-                    elif isinstance(obj, list):
-                        obj[:] = fresh
-                    elif isinstance(obj, set):
-                        obj.clear(); obj.update(fresh)
-                    else:
-                        obj[:] = fresh
-                    changed += 1
+                changed += _restore(obj, clean)
+            for obj, clean in defaults:
+                changed += _restore(obj, clean)
         self.restored += changed
         return changed
 
